@@ -149,12 +149,12 @@ Print Assumptions C04_adrp_page_exact.
 Theorem C04_installed_call_site : forall st calls base fill final img h2 i pos target,
   wf_holder (jh st) -> data_len_ok (jh st) ->
   (forall h1, flatten (jh st) = (EOk, h1) -> NoDup (map sid h1) /\ (forall s, In s h1 -> 0 <= sid s)) ->
-  jtab st <> Some 0 -> calls_disjoint calls ->
+  jtab st <> Some 0 -> (forall h off, sites_disjoint (map (site_entry h off) calls)) ->
   jit_add_reloc st calls base fill = (JOk, final, img, h2) ->
-  nth_error calls i = Some (pos, target) ->
+  nth_error calls i = Some (SCall pos target) ->
   exists h1 text atoff reserved last r o,
     flatten (jh st) = (EOk, h1) /\ by_id h1 0 = Some text /\
-    relocate base REG_SIZE atoff reserved last (map (site_entry (soff text)) calls) = inl r /\
+    relocate base REG_SIZE atoff reserved last (map (site_entry h1 (soff text)) calls) = inl r /\
     nth_error (rr_outs r) i = Some o /\
     (forall k, 0 <= k < 4 -> soff text + pos + 2 + k < final ->
        cell (flat img) (soff text + pos + 2 + k) = cell (le_bytes 4 (o_word o)) k) /\
@@ -166,9 +166,9 @@ Print Assumptions C04_installed_call_site.
 
 (* ... and that word reaches the target: directly (end of instruction + rel32 = target) or through slot `slot` of the relocated address
    table, which holds the target (FF /2 through [rip + rel32] = base + table offset + 8 * slot) *)
-Theorem C04_installed_call_reaches : forall base atoff reserved last text_off calls r i pos target o,
-  relocate base REG_SIZE atoff reserved last (map (site_entry text_off) calls) = inl r ->
-  nth_error calls i = Some (pos, target) -> nth_error (rr_outs r) i = Some o ->
+Theorem C04_installed_call_reaches : forall base atoff reserved last h text_off calls r i pos target o,
+  relocate base REG_SIZE atoff reserved last (map (site_entry h text_off) calls) = inl r ->
+  nth_error calls i = Some (SCall pos target) -> nth_error (rr_outs r) i = Some o ->
   let next := text_off + pos + CALL_LEN in
   let d := decode_kind K_Rel32 (o_word o) in
   (o_rewrite o = None /\ rel_target 64 base next d = target mod 2 ^ 64) \/
